@@ -514,3 +514,64 @@ def o11_1_confirm(v, out):
         if obsolete and present: problems.append('%s %d is obsolete but was kept' % (kind, num))
         if not obsolete and not present: problems.append('%s %d is still needed but was deleted' % (kind, num))
     return (bool(problems), '; '.join(problems) or 'native deletion matches the specification')
+
+
+# =============================================================== O9.2 compaction_task always releases the waiters
+def o9_2_compaction_task(mir, tier):
+    """CompactionWorker::compaction_task: on every path (shutting down, failed state, normal) the scheduled flag is cleared and
+    ALL waiters of the background-work condition variable are woken before the function returns."""
+    fn = mir.method('CompactionWorker', 'compaction_task')
+    res = Result('O9.2 compaction_task clears the scheduled flag and wakes all waiters', [fn.path],
+                 'shutdown flag, failed state and the result of should_schedule_compaction free; coordinate_compaction opaque')
+    t0 = time.time()
+    S = lib.std_summaries(); P = S['$patterns']
+    P[GUARD] = lib.ptr_deref
+    shutting, bad, again = Bool('shutting_down'), Bool('bad_state'), Bool('needs_more_compaction')
+    def add(env, ev):
+        st = dict(env['$state']); st['events'] = st['events'] + [ev]; env['$state'] = st
+    def ev(name, ret=()):
+        def f(se, env, pc, *a):
+            add(env, name); return [(None, ret, env['$state'])]
+        return f
+    P[r'parking_lot::lock_api::Mutex::lock'] = lambda se, env, pc, m: lib.one(env, Ref('$g'))
+    P[r'Atomic::load'] = lambda se, env, pc, *a: lib.one(env, shutting)
+    P[r'CompactionWorker::coordinate_compaction'] = ev('coordinate_compaction')
+    P[r'(?:parking_lot::)?Condvar::notify_all'] = ev('notify_all', bv(0))
+    P[r'(?:parking_lot::)?Condvar::notify_one'] = ev('notify_one', BoolVal(False))
+    P[r'DB::should_schedule_compaction'] = lambda se, env, pc, *a: lib.one(env, again)
+    P[r'Option::is_some'] = lambda se, env, pc, r: lib.one(env, bad)
+    ex = Exec(mir, S, loop_bound=3, opaque_calls_ok=True)
+    flagf = mir.field('GuardedDbFields', 'background_compaction_scheduled')
+    def k(ret, env, pc):
+        evs = env['$state']['events']
+        flag = env['$g'].get(flagf)
+        posts = [('a path of the background task returns without waking all waiters (notify_all)', BoolVal('notify_all' in evs)),
+                 ('a path of the background task returns with the scheduled flag still set', BoolVal(flag is not None and is_bool_false(flag))),
+                 ('compaction work is done although the database is shutting down or in the failed state', Or(BoolVal('coordinate_compaction' not in evs), And(Not(shutting), Not(bad)))),
+                 ('the task does not report that more compaction work is needed', (ret == again) if not isinstance(ret, Opaque) else BoolVal(True))]
+        res.cases[','.join(evs)] = res.cases.get(','.join(evs), 0) + 1
+        for label, post in posts:
+            ex.record_formula(label, pc, Not(post))
+            m = ex.model(Not(post))
+            if m is not None: res.violations.append({'label': label, 'events': evs, 'replay': ['compact_waiters'] if 'waking' in label else None,
+                                                     'confirmed_by': None if 'waking' in label else {'reproduced': False, 'detail': 'no native scenario'}})
+    env = {'$state': {'events': []}, '$g': mir.mk_struct('GuardedDbFields', background_compaction_scheduled=BoolVal(True)),
+           '$dbs': mir.mk_struct('PortableDatabaseState', guarded_db_fields='mutex', is_shutting_down='atomic', background_work_finished_signal='condvar')}
+    ex.top(fn, [Ref('$dbs')], env, [], k)
+    res.absorb(ex)
+    res.wall_s = time.time() - t0
+    if res.violations: res.status = 'violation'
+    return res
+
+
+def is_bool_false(v):
+    from z3 import is_false, simplify as _s
+    try: return is_false(_s(v))
+    except Exception: return False
+
+
+def o9_2_confirm(v, out):
+    """Native: three threads call compact_range concurrently (each waits on the background-work condition variable); with a
+    lost wake-up one of them never returns (watchdog)."""
+    hung = bool(out.get('_timeout')) or out.get('all_returned') == 'false'
+    return (hung, 'three concurrent compact_range calls: %s' % ('at least one never returned (lost wake-up)' if hung else 'all returned'))
